@@ -65,8 +65,8 @@ MUTANTS = [
      "                let no_trivia: Vec<Token> = Vec::new();\n                let trailing_comments = no_trivia\n                    .iter()\n",
      "undischarged=close.leading,close.trailing,open.trailing"),
     ("replace-partial-read", "C03", "src/formatters/expression.rs",
-     "    let mut trailing_comments = binop.trailing_comments();",
-     "    let mut trailing_comments = binop.trailing_comments_search(CommentSearch::Single);", "unaccounted-Replace side=trailing"),
+     "    let mut trailing_comments = binop\n        .trailing_comments()\n        .iter()",
+     "    let mut trailing_comments = binop\n        .trailing_comments_search(CommentSearch::Single)\n        .iter()", "unaccounted-Replace side=trailing"),
     ("collapse-drop-then-test", "C01", "src/formatters/stmt.rs",
      "        && !trivia_util::contains_comments(if_node.then_token())\n", "", "collapse-without-comment-test then_token.trailing"),
     ("nl-second-newline-constructor", "C10", "src/formatters/general.rs",
